@@ -130,8 +130,11 @@ UNSAFE_ALLOWED = {
 }
 TAME_SOURCES = {'core::mem::maybe_uninit::MaybeUninit::<T>::as_ptr', 'core::mem::maybe_uninit::MaybeUninit::<T>::as_mut_ptr',
                 'core::slice::<impl [T]>::as_mut_ptr', 'core::slice::<impl [T]>::as_ptr',
-                'core::ptr::mut_ptr::<impl *mut T>::add', 'core::ptr::const_ptr::<impl *const T>::add'}
-TAME_PASS = {'core::ptr::mut_ptr::<impl *mut T>::add', 'core::ptr::const_ptr::<impl *const T>::add'}
+                'core::ptr::mut_ptr::<impl *mut T>::add', 'core::ptr::const_ptr::<impl *const T>::add',
+                'core::ptr::mut_ptr::<impl *mut T>::cast', 'core::ptr::const_ptr::<impl *const T>::cast'}
+TAME_PASS = {'core::ptr::mut_ptr::<impl *mut T>::add', 'core::ptr::const_ptr::<impl *const T>::add',
+             'core::ptr::mut_ptr::<impl *mut T>::cast', 'core::ptr::const_ptr::<impl *const T>::cast'}
+PTR_CASTS = {'core::ptr::mut_ptr::<impl *mut T>::cast', 'core::ptr::const_ptr::<impl *const T>::cast'}
 TAME_SINKS = {'core::ptr::const_ptr::<impl *const T>::read', 'core::ptr::mut_ptr::<impl *mut T>::read', 'core::ptr::read',
               'core::ptr::drop_in_place', 'core::ptr::mut_ptr::<impl *mut T>::write', 'core::ptr::write',
               'core::ptr::copy_nonoverlapping', 'core::intrinsics::copy_nonoverlapping', 'core::ptr::copy'}
@@ -150,9 +153,14 @@ def tame_raw_locals(b):
         if pl is not None:
             return ('proj', pl['local'])
         return None
+    derefd = set()     # raw locals that are dereferenced (`&*p`, `(*p).0`): tame only for MaybeUninit::as_ptr pointers
+
     def scan_place(pl):
         if pl is not None and pl['local'] in raw and pl['proj']:
-            bad.add(pl['local'])
+            if pl['proj'][0] == 'deref':
+                derefd.add(pl['local'])
+            else:
+                bad.add(pl['local'])
 
     def scan_op(o):
         scan_place(o.get('copy') or o.get('move'))
@@ -195,6 +203,9 @@ def tame_raw_locals(b):
                 srcs = [local_of(rv['use'])]
             elif same_ptr_cast:
                 srcs = [local_of(rv['cast']['op'])]
+            elif k == 'ref' and rv['ref']['place']['local'] in raw and rv['ref']['place']['proj'][:1] == ['deref'] \
+                    and dst not in raw:
+                continue        # `&*p` / `&(*p).0`: judged through `derefd` below
             else:
                 # any other rvalue that defines or reads a raw local is not tame
                 used = set()
@@ -220,6 +231,19 @@ def tame_raw_locals(b):
             d = t['dest']
             if d['local'] in raw and (d['proj'] or name not in TAME_SOURCES):
                 bad.add(d['local'])
+            if name in PTR_CASTS and d['local'] in raw and not d['proj']:
+                # only *MaybeUninit<T> -> *T (same address, repr(transparent)) or an identity cast is understood
+                src = local_of(t['operands'][0]) if t['operands'] else None
+                st0 = b.locals[src]['ty'] if isinstance(src, int) else None
+                dt0 = b.locals[d['local']]['ty']
+                ok = False
+                if st0 and st0.get('k') == 'rawptr' and dt0.get('k') == 'rawptr':
+                    a, c = st0.get('to') or {}, dt0.get('to') or {}
+                    same = json.dumps(a, sort_keys=True) == json.dumps(c, sort_keys=True)
+                    unwrap = ty_is_mu(a) and a.get('args') and json.dumps(a['args'][0], sort_keys=True) == json.dumps(c, sort_keys=True)
+                    ok = same or bool(unwrap)
+                if not ok:
+                    bad.add(d['local'])
             for i, o in enumerate(t['operands']):
                 l = local_of(o)
                 if isinstance(l, tuple):
@@ -235,6 +259,46 @@ def tame_raw_locals(b):
                 b._op_uses(t['cond'], used)
             for u in used & raw:
                 bad.add(u)
+    # a dereferenced raw pointer is tame only if it can only be the result of MaybeUninit::as_ptr / as_mut_ptr
+    # (then `&*p` is assume_init_ref / assume_init_mut by another name, with the same obligation); a pointer into
+    # the slot ARRAY (slice::as_mut_ptr, .add(i)) can alias other slots and stays reported
+    inner = set()
+    for blk in b.blocks:
+        t = blk['term']
+        if t['k'] == 'call':
+            name = t['callee'].get('rdef') or t['callee']['def']
+            d = t['dest']
+            if d['local'] in raw and not d['proj'] and name in ('core::mem::maybe_uninit::MaybeUninit::<T>::as_ptr',
+                                                               'core::mem::maybe_uninit::MaybeUninit::<T>::as_mut_ptr'):
+                inner.add(d['local'])
+    defs = {}
+    for blk in b.blocks:
+        for s in blk['stmts']:
+            if s['k'] == 'assign' and s['place']['local'] in raw and not s['place']['proj']:
+                defs.setdefault(s['place']['local'], []).append(s['rv'])
+        t = blk['term']
+        if t['k'] == 'call' and t['dest']['local'] in raw and not t['dest']['proj']:
+            defs.setdefault(t['dest']['local'], []).append({'call': t['callee'].get('rdef') or t['callee']['def']})
+    ch = True
+    while ch:
+        ch = False
+        for l, ds in defs.items():
+            if l in inner:
+                continue
+            ok = bool(ds)
+            for rv in ds:
+                if 'use' in rv or ('cast' in rv and rv['cast']['kind'] == 'PtrToPtr'):
+                    src = local_of(rv['use'] if 'use' in rv else rv['cast']['op'])
+                    if isinstance(src, tuple) or src not in inner:
+                        ok = False
+                else:
+                    ok = False
+            if ok:
+                inner.add(l)
+                ch = True
+    for l in derefd:
+        if l not in inner:
+            bad.add(l)
     # copies propagate badness
     changed = True
     while changed:
